@@ -2139,7 +2139,7 @@ class TraditionalGitClient(GitClient):
                 negotiated_capabilities.discard(CAPABILITY_ATOMIC)
 
             try:
-                new_refs = orig_new_refs = update_refs(old_refs)
+                new_refs = orig_new_refs = update_refs(dict(old_refs))
             except BaseException:
                 proto.write_pkt_line(None)
                 raise
